@@ -16,7 +16,10 @@ import (
 )
 
 // lenv holds the integer-valued arguments of one call by name.
-type lenv struct{ v map[string]int }
+type lenv struct {
+	v  map[string]int
+	fv map[string]float64 // overrides of float scalar arguments (quick-return values)
+}
 
 func (e *lenv) g(name string) int {
 	x, ok := e.v[name]
@@ -102,6 +105,7 @@ type larg struct {
 	used       func(e *lenv) bool
 	val        efn // lkInt: the value in a valid call
 	fval       float64
+	fvals      []float64 // lkScalar: further values (quick-return triggers) crossed with every fault
 	bval       bool
 	init       func(e *lenv, i int) int   // int vector contents
 	fill       func(e *lenv, s []float64) // float slice contents (default: generic)
@@ -166,6 +170,12 @@ func (r *lroutine) optLworkOnly() *lroutine                { r.noMinLwork = true
 func (r *lroutine) mod(name string, f func(a *larg)) *lroutine {
 	f(&r.args[r.pos[name]])
 	return r
+}
+
+// also adds further values of a float scalar argument: values that trigger a
+// quick return or a special path; every fault is crossed with each of them.
+func (r *lroutine) also(name string, vals ...float64) *lroutine {
+	return r.mod(name, func(a *larg) { a.fvals = append(a.fvals, vals...) })
 }
 
 // altMsg adds acceptable messages for the fault on an argument.
@@ -736,7 +746,11 @@ func (lm *lmethod) buildPlaced(e *lenv, place func(k int) bool) (in []reflect.Va
 		case lkDim, lkInt, lkLd, lkLwork:
 			in[i] = reflect.ValueOf(e.g(a.name))
 		case lkScalar:
-			in[i] = reflect.ValueOf(a.fval)
+			if x, ok := e.fv[a.name]; ok {
+				in[i] = reflect.ValueOf(x)
+			} else {
+				in[i] = reflect.ValueOf(a.fval)
+			}
 		case lkBool:
 			if a.enum {
 				in[i] = reflect.ValueOf(e.g(a.name) != 0)
